@@ -267,6 +267,12 @@ impl Compiler {
         self.scope_depth = self.scope_depth.saturating_add(1);
     }
 
+    /// Emit PushNamespaceScope (scope of a namespace body) and track the static scope depth
+    pub(crate) fn emit_push_namespace_scope(&mut self, obj: Register) {
+        self.builder.emit(Op::PushNamespaceScope { obj });
+        self.scope_depth = self.scope_depth.saturating_add(1);
+    }
+
     /// Emit PopScope and track the static scope depth
     pub(crate) fn emit_pop_scope(&mut self) {
         self.builder.emit(Op::PopScope);
